@@ -360,6 +360,7 @@ Module OLit.
   Definition v_time          : list N := Eval vm_compute in s2l "time"%string.
   Definition v_TRUE          : list N := Eval vm_compute in s2l "TRUE"%string.
   Definition v_true          : list N := Eval vm_compute in s2l "true"%string.
+  Definition k_table_table   : list N := Eval vm_compute in s2l "table:table"%string.
   Definition v_false         : list N := Eval vm_compute in s2l "false"%string.
 End OLit.
 Export OLit.
@@ -498,6 +499,45 @@ Definition ods_spec_table := spec_table DEmpty (@nil N) data_is_empty str_is_emp
 Definition read_xtable (rows : list xrow) : outcome (range data * range str) :=
   do rs <- map_outcome read_xrow rows;
   ods_read_table rs.
+
+(* ---- the loop of read_table over what stands inside one table:table ----
+   The reader looks at two things only: a start tag table:table-row (it then reads the row up to
+   its end tag: one item [TRow] here) and the end tag table:table.  Every other start tag, end
+   tag, empty element, text or comment is passed over — so the elements that may hold the rows
+   (table:table-header-rows, table:table-rows, table:table-row-group, nested to any depth) and
+   the ones that stand beside them (table:table-column(s), table:shapes, office:forms,
+   table:named-expressions …) are transparent.  The input running out before the end tag is
+   OdsError::Eof. *)
+Inductive titem : Type :=
+| TRow (x : xrow)
+| TOpen (n : str) (a : attrs)
+| TClose (n : str)
+| TOther.
+
+Definition k_table_table : str := OLit.k_table_table.
+Definition ERR_EOF : N := 6.
+
+Fixpoint table_loop (its : list titem) (acc : list xrow) : outcome (list xrow) :=
+  match its with
+  | [] => Err ERR_EOF
+  | TRow x :: r => table_loop r (acc ++ [x])
+  | TClose n :: r => if str_eqb n k_table_table then Ok acc else table_loop r acc
+  | _ :: r => table_loop r acc
+  end.
+
+Definition read_table_items (its : list titem) : outcome (range data * range str) :=
+  do rows <- table_loop its [];
+  read_xtable rows.
+
+(* E: the rows of a table under any arrangement of containers and neighbours *)
+Fixpoint rows_of (its : list titem) : list xrow :=
+  match its with
+  | [] => []
+  | TRow x :: r => x :: rows_of r
+  | _ :: r => rows_of r
+  end.
+Definition item_ok (it : titem) : bool :=
+  match it with TClose n => negb (str_eqb n k_table_table) | _ => true end.
 
 (* ---- spec of the typing part (ODF 1.2 part 1, 19.385 office:value-type) ---- *)
 Inductive tvalue : Type :=
